@@ -174,6 +174,42 @@ func init() {
 			emit("c14.record", args...)
 		}
 	})
+	// the same for a document (YAML/XML) workbook: only the separators matter there
+	regStream("corr.protogen.recordDoc", func(r *rand.Rand, n int, emit func(string, ...string)) {
+		for i := 0; i < n; i++ {
+			bm := genLevel(r, 20, r.Intn(256))
+			g := genLevel(r, 30, r.Intn(256))
+			var args []string
+			if r.Intn(3) != 0 {
+				args = append(args, "1")
+			} else {
+				args = append(args, "0")
+				bm = level{}
+			}
+			args = append(args, bm.args()...)
+			if r.Intn(4) != 0 {
+				args = append(args, "1")
+			} else {
+				args = append(args, "0")
+			}
+			args = append(args, g.args()...)
+			emit("c14.recorddoc", args...)
+		}
+	})
+	regImpl("c14.recorddoc", func(a []string) string {
+		bm := decLevel(a[1:9])
+		g := decLevel(a[10:18])
+		var gp *options.HeaderOption
+		if a[9] == "1" {
+			gp = g.global()
+		}
+		var bp *tableaupb.WorkbookOptions
+		if a[0] == "1" {
+			bp = bm.book()
+		}
+		rb := verifhook.RecordedDocOptions(gp, bp)
+		return encStr(rb.Sep) + " " + encStr(rb.Subsep)
+	})
 	regImpl("c14.record", func(a []string) string {
 		s := decLevel(a[0:8])
 		bm := decLevel(a[9:17])
